@@ -236,6 +236,8 @@ class SymRat:
 
     def __hash__(self):
         E.hash_log.append(self.z)
+        if not E.hash_recording:
+            E.loose_hash(self.z)
         return 0
 
     # --- integer views
@@ -690,6 +692,8 @@ class SymInt:
 
     def __hash__(self):
         E.hash_log.append(self.z)
+        if not E.hash_recording:
+            E.loose_hash(self.z)
         return 0
 
     def __index__(self):
